@@ -168,9 +168,12 @@ class Run(object):
 
     def play(self, m):
         if m[0] == 'final':
-            self.log(e='sentfinal', b=list(m[1]))
+            drop = len(m) > 2 and bool(m[2])
+            self.log(e='sentfinal', b=list(m[1]), drop=drop)
             if not self.ctl.server_closed:
                 self.ctl_send(bytes(m[1]))
+                if drop:
+                    self.ctl.close()
         elif m[0] == 'data':
             n = int(m[1])
             self.log(e='dsent', n=n)
